@@ -359,12 +359,9 @@ class MITMProxyEventManager:
         except:
             LOG.exception("Failed while handling EQ message")
 
-        handle_event = AddonManager.handle_eq_event(session, region, event)
-        if handle_event is True:
-            # Addon handled the event and didn't want it sent to the viewer
-            return True
-
-        # Handle events that inform us about new regions
+        # Handle events that inform us about new regions. This has to happen whether or not
+        # an addon swallows the event below, addons commonly hold an event back and re-inject
+        # it later, and injected events don't come through here again.
         sim_addr, sim_handle, sim_seed = None, None, None
         # Sim is asking us to talk to a neighbour
         if event["message"] == "EstablishAgentCommunication":
@@ -386,4 +383,7 @@ class MITMProxyEventManager:
         # Register a region if this message was telling us about a new one
         if sim_addr is not None:
             session.register_region(sim_addr, handle=sim_handle, seed_url=sim_seed)
-        return False
+
+        handle_event = AddonManager.handle_eq_event(session, region, event)
+        # True: addon handled the event and didn't want it sent to the viewer
+        return handle_event is True
